@@ -190,8 +190,14 @@ pub fn hash_value(v: &Value) -> u64 {
     fnv1a(FNV_INIT, v.to_string().as_bytes())
 }
 
+/// Seed of run `i` of a scenario. Every part goes through the finaliser before the next one is
+/// mixed in: with a plain running xor, two base seeds that differ only in a few low bits
+/// enumerated the same set of run seeds in another order (i and i ^ d swap places), so
+/// VERIF_SEED = 1, 3, 5, 7 explored the same runs.
 pub fn scenario_seed(base: u64, scenario: &str, i: usize) -> u64 {
-    mix(&[base, fnv1a(FNV_INIT, scenario.as_bytes()), i as u64])
+    let s1 = mix(&[base]);
+    let s2 = mix(&[s1 ^ fnv1a(FNV_INIT, scenario.as_bytes())]);
+    mix(&[s2 ^ i as u64])
 }
 
 pub fn verif_dir() -> String {
